@@ -334,9 +334,7 @@ impl ParserListener for Screen {
                 is_wide_char = char
                     .chars()
                     .next()
-                    .expect("can not read char")
-                    .width()
-                    .is_some_and(|s| s == 2);
+                    .is_some_and(|c| c.width().is_some_and(|s| s == 2));
                 result.push_str(&char);
             }
 
